@@ -104,7 +104,7 @@ int main(int argc, char** argv) {
         if (w == "mode") {
             std::string m;
             in >> m;
-            S.mode = m == "pct" ? 1 : (m == "replay" ? 2 : (m == "preempt" ? 3 : 0));
+            S.mode = m == "pct" ? 1 : (m == "replay" ? 2 : (m == "preempt" ? 3 : (m == "script" ? 4 : 0)));
             std::string k;
             while (in >> k) {
                 if (k == "seed") {
@@ -117,6 +117,11 @@ int main(int argc, char** argv) {
                     in >> depth;
                 } else if (k == "maxsteps") {
                     in >> S.max_steps;
+                } else if (k == "seg") {
+                    std::string pt;
+                    in >> pt;
+                    auto c = pt.find(':');
+                    S.script.emplace_back(std::stoi(pt.substr(0, c)), std::stoi(pt.substr(c + 1)));
                 } else if (k == "first") {
                     in >> S.first_thread;
                 } else if (k == "at") {
